@@ -33,6 +33,20 @@ a file no declared ancestor produces.  The block kinds cover the mechanisms name
            generated .h: source listed before / after the header, header via declare_dependency(sources:),
            generator()-produced .c including a custom_target header (both orders)
 
+  prog     ONE thing the build produces and steps execute (v: an executable / a find_program() result that
+           meson.override_find_program() maps to a built executable of the project / of a subproject / a script made
+           by a custom target / index [1] of a two-output custom target), needed by one consumer statement per ROUTE:
+           generator(depends:) with the path only as a string argument, generator(<program>), generator.process(
+           depends:, extra_args:), generator.process(<target>), custom_target(depends:) / as argument / as the command /
+           run by `sh` / as input:, run_target(depends:) / as argument / as the command
+  tprog    `ninja test` / `ninja benchmark` in scope (the statements that run the tests, with meson-test-prereq): five
+           routes test(depends:), test(args:), test(<program>), benchmark(depends:), benchmark(<program>), each with
+           an entry of its own (kinds per variant: TPROG_TABLE), nothing built by default
+  dchain   declare_dependency() three / four levels deep: generated headers and a generated source (sources:), a static
+           library (link_with:), extracted objects (objects:) reach an executable / static / shared library only
+           through dependencies: of dependencies:; partial_dependency(sources:, includes:) of the outermost one
+  (gen v2 / chain v2: the generator() / custom_target() step writes a depfile: '@DEPFILE@', depfile:)
+
 The second family (`overlay_random`) takes ``projgen.random_project`` projects (odd names, subprojects,
 nested subdirs, both_libraries, generators) and makes their generated headers really included / their
 ``depends:`` really read.
@@ -48,33 +62,45 @@ from pathlib import Path
 
 from . import projgen
 
-KINDS = ('hdr', 'dep', 'gen', 'chain', 'tool', 'link', 'script', 'ctlib', 'run', 'conf', 'subproj', 'pair', 'unity', 'privhdr')
+KINDS = ('hdr', 'dep', 'gen', 'chain', 'tool', 'link', 'script', 'ctlib', 'run', 'conf', 'subproj', 'pair', 'unity', 'privhdr', 'prog', 'tprog', 'dchain')
+# what a `prog` block's steps execute (variant number -> entry kind)
+PROG_ENTRIES = ('exe', 'ovr', 'spovr', 'ct', 'cti')
+# tprog: entry kind per route (tdep, targ, texe, bdep, bexe) and variant; every (route, kind) pair occurs, at most one
+# subproject per block, and variants 0 / 1 (the quick tier's) put an overridden program behind depends:, args: and the
+# test program at once (test and benchmark share the code for depends: and for the program)
+TPROG_TABLE = (('ovr', 'spovr', 'ovr', 'ct', 'cti'), ('spovr', 'ovr', 'ct', 'exe', 'ovr'), ('exe', 'ct', 'spovr', 'ovr', 'exe'),
+               ('ct', 'cti', 'exe', 'spovr', 'ovr'), ('cti', 'exe', 'cti', 'ovr', 'spovr'))
 # rough number of build statements a block contributes (used to keep graphs explorable)
 WEIGHT = {'hdr': 8, 'dep': 8, 'gen': 11, 'chain': 8, 'tool': 15, 'link': 20, 'script': 7, 'ctlib': 7, 'run': 7,
-          'conf': 7, 'subproj': 7, 'pair': 7, 'unity': 16, 'privhdr': 10}
-VARIANTS = {'hdr': 5, 'dep': 3, 'gen': 2, 'chain': 2, 'tool': 3, 'link': 2, 'script': 1, 'ctlib': 1, 'run': 1,
-            'conf': 1, 'subproj': 2, 'pair': 5, 'unity': 4, 'privhdr': 5}
+          'conf': 7, 'subproj': 7, 'pair': 7, 'unity': 16, 'privhdr': 10, 'prog': 26, 'tprog': 16, 'dchain': 15}
+VARIANTS = {'hdr': 5, 'dep': 3, 'gen': 3, 'chain': 3, 'tool': 3, 'link': 2, 'script': 1, 'ctlib': 1, 'run': 1,
+            'conf': 1, 'subproj': 2, 'pair': 5, 'unity': 4, 'privhdr': 5, 'prog': 5, 'tprog': 5, 'dchain': 3}
 
 GEN_SH = r"""#!/bin/sh
-# usage: gen.sh [-i HEADER]... [-r FILE]... [-x PROG]... INPUT OUTPUT...
+# usage: gen.sh [-d DEPFILE] [-i HEADER]... [-r FILE]... [-x PROG]... INPUT OUTPUT...
+#   -d DEPFILE  write a Makefile-syntax depfile: first OUTPUT: INPUT and every -r FILE
 #   -i HEADER  every .c output starts with #include "HEADER"
 #   -r FILE  read FILE (fails when it is missing); its checksum goes into every output
 #   -x PROG  run PROG (fails when it cannot run); its output goes into every output
-# .c outputs define <stem>_fn(), .h outputs define <STEM>_VALUE, .map is a linker version script
+# .c outputs define <stem>_fn(), .h outputs define <STEM>_VALUE, .map is a linker version script, .sh a runnable script
 acc=""
 inc=""
+dep=""
+rl=""
 while :; do
   case "$1" in
     -i) inc="$inc#include \"$2\"
 "; shift 2;;
-    -r) f="$2"; shift 2; s=$(cksum < "$f") || exit 3; acc="$acc r:$(basename "$f"):${s%% *}";;
-    -x) p="$2"; shift 2; o=$("$p") || exit 4; acc="$acc x:$(basename "$p"):$o";;
+    -d) dep="$2"; shift 2;;
+    -r) f="$2"; shift 2; s=$(cksum < "$f") || exit 3; acc="$acc r:$(basename "$f"):${s%% *}"; rl="$rl $f";;
+    -x) p="$2"; shift 2; case "$p" in */*) ;; *) p="./$p";; esac; o=$("$p") || exit 4; acc="$acc x:$(basename "$p"):$o";;
     *) break;;
   esac
 done
 in="$1"; shift
 s=$(cksum < "$in") || exit 5
 acc="in:${s%% *}$acc"
+if [ -n "$dep" ]; then printf '%s: %s%s\n' "$1" "$in" "$rl" > "$dep" || exit 7; fi
 for o in "$@"; do
   b=$(basename "$o"); stem=${b%.*}
   id=$(printf %s "$stem" | tr -c 'A-Za-z0-9' '_')
@@ -83,6 +109,7 @@ for o in "$@"; do
     *.c|*.cpp) printf '%s/* %s */\nint %s_fn(void) { return 0; }\n' "$inc" "$acc" "$id" > "$o" || exit 6;;
     *.h) printf '/* %s */\n#define %s_VALUE 1\n' "$acc" "$up" > "$o" || exit 6;;
     *.map) printf '/* %s */\n{ global: *; };\n' "$acc" > "$o" || exit 6;;
+    *.sh) printf '#!/bin/sh\n# %s\necho script-%s\n' "$acc" "$id" > "$o" && chmod +x "$o" || exit 6;;
     *) { echo "$acc"; cat "$in"; } > "$o" || exit 6;;
   esac
 done
@@ -207,11 +234,12 @@ def _block(w: _W, b: T.Dict[str, T.Any]) -> None:
         F(f'{p}_two.in', f'two {p}\n')
         if v == 0:
             L(f"{p}_g = generator(gen, output: ['@BASENAME@.c', '@BASENAME@.h'], arguments: ['@INPUT@', '@OUTPUT0@', '@OUTPUT1@'])")
-        else:   # the generator itself depends on a custom target it reads
+        else:   # the generator itself depends on a custom target it reads (v2: and records what it read in a depfile)
             F(f'{p}_pre.in', f'pre {p}\n')
             L(f"{p}_pre = custom_target('{p}_pre', input: '{p}_pre.in', output: '{p}_pre.txt', command: {GEN})")
+            dfa, dfk = ("'-d', '@DEPFILE@', ", ", depfile: '@BASENAME@.d'") if v == 2 else ('', '')
             L(f"{p}_g = generator(gen, output: ['@BASENAME@.c', '@BASENAME@.h'], "
-              f"arguments: ['-r', {p}_pre.full_path(), '@INPUT@', '@OUTPUT0@', '@OUTPUT1@'], depends: {p}_pre)")
+              f"arguments: [{dfa}'-r', {p}_pre.full_path(), '@INPUT@', '@OUTPUT0@', '@OUTPUT1@'], depends: {p}_pre{dfk})")
         F(f'{p}_main.c', _main_c([f'{p}_one.h', f'{p}_two.h'], [f'{p}_one_fn', f'{p}_two_fn'],
                                  f'{P}_ONE_VALUE - {P}_TWO_VALUE + {p}_one_fn() + {p}_two_fn()'))
         F(f'{p}_side.c', _fn_c(f'{p}_side', [f'{p}_two.h'], expr=f'{P}_TWO_VALUE'))
@@ -226,12 +254,14 @@ def _block(w: _W, b: T.Dict[str, T.Any]) -> None:
         F(f'{p}_extra.txt', 'extra\n')
         L(f"{p}_a = custom_target('{p}_a', input: '{p}_a.in', output: '{p}_a.txt', command: {GEN})")
         L(f"{p}_b = custom_target('{p}_b', input: {p}_a, output: '{p}_b.txt', command: {GEN})")
+        # v2: the step records what it read in a depfile (the discovered prerequisites of the second build)
+        dfa, dfk = ("'-d', '@DEPFILE@', ", ", depfile: '@BASENAME@.d'") if v == 2 else ('', '')
         L(f"{p}_c = custom_target('{p}_c', input: '{p}_c.in', output: ['{p}_c.c', '{p}_c.h'], "
-          f"command: [gen, '-r', {p}_b.full_path(), '@INPUT@', '@OUTPUT@'], depends: {p}_b, depend_files: files('{p}_extra.txt'))")
+          f"command: [gen, {dfa}'-r', {p}_b.full_path(), '@INPUT@', '@OUTPUT@'], depends: {p}_b, depend_files: files('{p}_extra.txt'){dfk})")
         L(f"{p}_d = custom_target('{p}_d', input: '{p}_d.in', output: '{p}_d.txt', "
           f"command: [gen, '-r', {p}_c[1], '@INPUT@', '@OUTPUT@'], build_by_default: true)")
         F(f'{p}_main.c', _main_c([f'{p}_c.h'], [f'{p}_c_fn'], f'{P}_C_VALUE - 1 + {p}_c_fn()'))
-        if v == 0:
+        if v in (0, 2):
             L(f"{p}_exe = executable('{p}_exe', '{p}_main.c', {p}_c)")
         else:   # indexed outputs, plus a generator() whose input is a custom target output
             L(f"{p}_gx = generator(gen, output: '@BASENAME@_x.c', arguments: ['@INPUT@', '@OUTPUT@'])")
@@ -424,6 +454,154 @@ def _block(w: _W, b: T.Dict[str, T.Any]) -> None:
         else:               # header handed over by a dependency object (appended after the positional sources)
             L(f"{p}_hdep = declare_dependency(sources: {p}_h)")
             L(f"{p}_exe = executable('{p}_exe', '{p}_main.c', {src}, dependencies: {p}_hdep)")
+    elif kind == 'prog':
+        # One ENTRY (something the build produces and a step executes) reached by every depends:-like and
+        # program-like route, each route in its own consumer statement so that no route hides another one.
+        ent = PROG_ENTRIES[v]
+        F(f'{p}_plug.c', '#include <stdio.h>\nint main(void) { puts("plug-%s"); return 0; }\n' % p)
+        if ent in ('exe', 'ovr'):
+            L(f"{p}_plug = executable('{p}_plug', '{p}_plug.c', build_by_default: false)")
+            if ent == 'ovr':
+                L(f"meson.override_find_program('{p}_plugprog', {p}_plug)")
+                L(f"{p}_e = find_program('{p}_plugprog')")
+            else:
+                L(f"{p}_e = {p}_plug")
+        elif ent == 'spovr':    # the plugin is built and published by a subproject
+            sp = f'{p}sp'
+            sd = f'subprojects/{sp}'
+            w.file(sd, f'{p}_spplug.c', '#include <stdio.h>\nint main(void) { puts("spplug-%s"); return 0; }\n' % p)
+            w.lines[sd] = [
+                f"project('{sp}', 'c', version: '1.0')",
+                f"{p}_spplug = executable('{p}_spplug', '{p}_spplug.c', build_by_default: false)",
+                f"meson.override_find_program('{p}_plugprog', {p}_spplug)",
+            ]
+            L(f"subproject('{sp}')")
+            L(f"{p}_e = find_program('{p}_plugprog')")
+        elif ent == 'ct':       # a runnable script made by a custom target
+            F(f'{p}_s.in', f's {p}\n')
+            L(f"{p}_e = custom_target('{p}_s', input: '{p}_s.in', output: '{p}_s.sh', command: {GEN})")
+        else:                   # ... by a custom target with two outputs, used through its index
+            F(f'{p}_t.in', f't {p}\n')
+            L(f"{p}_t = custom_target('{p}_t', input: '{p}_t.in', output: ['{p}_t0.sh', '{p}_t1.sh'], command: {GEN})")
+            L(f"{p}_e = {p}_t[1]")
+        is_prog = ent in ('exe', 'ovr', 'spovr')
+        is_tgt = ent in ('exe', 'ct', 'cti')
+        L(f"{p}_path = {p}_e.full_path()")
+        for nm in ('gdep', 'gexe', 'pdep', 'pin', 'cdep', 'carg', 'cinp', 'rdep', 'rarg'):
+            F(f'{p}_{nm}.in', f'{nm} {p}\n')
+        # generator(): the entry only in depends: / as the generator's program / in process(depends:) / as input
+        gl = []
+        L(f"{p}_g0 = generator(gen, output: '@BASENAME@.txt', arguments: ['-x', {p}_path, '@INPUT@', '@OUTPUT@'], depends: {p}_e)")
+        gl.append(f"{p}_g0.process('{p}_gdep.in')")
+        if is_prog:
+            L(f"{p}_g1 = generator({p}_e, output: '@BASENAME@.txt', arguments: ['@INPUT@'], capture: true)")
+            gl.append(f"{p}_g1.process('{p}_gexe.in')")
+        else:
+            L(f"{p}_g2 = generator(gen, output: '@BASENAME@.txt', arguments: ['@EXTRA_ARGS@', '@INPUT@', '@OUTPUT@'])")
+            gl.append(f"{p}_g2.process('{p}_pdep.in', extra_args: ['-x', {p}_path], depends: {p}_e)")
+        if is_tgt:
+            L(f"{p}_g3 = generator(gen, output: '@BASENAME@.ptxt', arguments: ['@INPUT@', '@OUTPUT@'])")
+            gl.append(f"{p}_g3.process({p}_e)")
+        rs = ''.join(f"'-r', '@INPUT{j}@', " for j in range(1, len(gl)))
+        L(f"{p}_coll = custom_target('{p}_coll', input: [{', '.join(gl)}], output: '{p}_coll.txt', "
+          f"command: [gen, {rs}'@INPUT0@', '@OUTPUT@'], build_by_default: true)")
+        # custom_target(): depends: only / argument / the command itself / through an interpreter / input:
+        L(f"custom_target('{p}_cdep', input: '{p}_cdep.in', output: '{p}_cdep.txt', "
+          f"command: [gen, '-x', {p}_path, '@INPUT@', '@OUTPUT@'], depends: {p}_e, build_by_default: true)")
+        L(f"custom_target('{p}_carg', input: '{p}_carg.in', output: '{p}_carg.txt', "
+          f"command: [gen, '-x', {p}_e, '@INPUT@', '@OUTPUT@'], build_by_default: true)")
+        # (a custom-target index as the command itself is written as a bare file name when the target lives in the
+        # top build directory - not runnable under any schedule, so that combination is only generated in a subdir)
+        as_cmd = ent != 'cti' or bool(d)
+        if as_cmd:
+            L(f"custom_target('{p}_ccmd', output: '{p}_ccmd.txt', command: [{p}_e], capture: true, build_by_default: true)")
+        if not is_prog:
+            L(f"custom_target('{p}_cint', output: '{p}_cint.txt', command: [shprog, {p}_e], capture: true, build_by_default: true)")
+        L(f"custom_target('{p}_cinp', input: {p}_e, output: '{p}_cinp.txt', command: {GEN}, build_by_default: true)")
+        # run_target(): depends: only / argument / the command itself
+        L(f"run_target('{p}_rdep', command: [gen, '-x', {p}_path, files('{p}_rdep.in'), '/dev/null'], depends: {p}_e)")
+        L(f"run_target('{p}_rarg', command: [gen, '-x', {p}_e, files('{p}_rarg.in'), '/dev/null'])")
+        if as_cmd:
+            L(f"run_target('{p}_rcmd', command: [{p}_e])")
+    elif kind == 'tprog':
+        # `ninja test` / `ninja benchmark`: what the tests execute and read reaches the step that runs them only through
+        # meson-test-prereq / meson-benchmark-prereq.  Nothing here is built by default and every route has an entry
+        # of its own (one statement runs all the tests: a shared entry would hide a lost edge).
+        routes = ('tdep', 'targ', 'texe', 'bdep', 'bexe')
+        for j, route in enumerate(routes):
+            ent = TPROG_TABLE[v][j]
+            q = f'{p}_{route}'
+            F(f'{q}.in', f'{route} {p}\n')
+            if ent in ('exe', 'ovr'):
+                F(f'{q}_plug.c', '#include <stdio.h>\nint main(void) { puts("plug-%s"); return 0; }\n' % q)
+                L(f"{q}_e = executable('{q}_plug', '{q}_plug.c', build_by_default: false)")
+                if ent == 'ovr':
+                    L(f"meson.override_find_program('{q}_plugprog', {q}_e)")
+                    L(f"{q}_e = find_program('{q}_plugprog')")
+            elif ent == 'spovr':
+                sp = f'{p}sp'
+                sd = f'subprojects/{sp}'
+                w.file(sd, f'{q}_spplug.c', '#include <stdio.h>\nint main(void) { puts("spplug-%s"); return 0; }\n' % q)
+                w.lines[sd] = [
+                    f"project('{sp}', 'c', version: '1.0')",
+                    f"{q}_spplug = executable('{q}_spplug', '{q}_spplug.c', build_by_default: false)",
+                    f"meson.override_find_program('{q}_plugprog', {q}_spplug)",
+                ]
+                L(f"subproject('{sp}')")
+                L(f"{q}_e = find_program('{q}_plugprog')")
+            elif ent == 'ct':
+                F(f'{q}_s.in', f's {q}\n')
+                L(f"{q}_e = custom_target('{q}_s', input: '{q}_s.in', output: '{q}_s.sh', command: {GEN})")
+            else:
+                F(f'{q}_t.in', f't {q}\n')
+                L(f"{q}_t = custom_target('{q}_t', input: '{q}_t.in', output: ['{q}_t0.sh', '{q}_t1.sh'], command: {GEN})")
+                L(f"{q}_e = {q}_t[1]")
+            fn = 'test' if route[0] == 't' else 'benchmark'
+            if route.endswith('dep'):
+                L(f"{fn}('{q}', gen, args: ['-x', {q}_e.full_path(), files('{q}.in'), '/dev/null'], depends: {q}_e)")
+            elif route.endswith('arg'):
+                L(f"{fn}('{q}', gen, args: ['-x', {q}_e, files('{q}.in'), '/dev/null'])")
+            else:
+                L(f"{fn}('{q}', {q}_e)")
+    elif kind == 'dchain':
+        # declare_dependency() three levels deep: generated headers / a generated source (sources:), a static library
+        # (link_with:) and extracted objects (objects:) reach the consumer only through dependencies: of dependencies:
+        for nm in ('h1', 'h2', 'h3'):
+            F(f'{p}_{nm}.in', f'{nm} {p}\n')
+        L(f"{p}_h1 = custom_target('{p}_h1', input: '{p}_h1.in', output: '{p}_h1.h', command: {GEN})")
+        L(f"{p}_h2 = custom_target('{p}_h2', input: '{p}_h2.in', output: '{p}_h2.h', command: {GEN})")
+        L(f"{p}_h3 = custom_target('{p}_h3', input: '{p}_h3.in', output: ['{p}_h3.h', '{p}_h3s.c'], "
+          f"command: [gen, '@INPUT@', '@OUTPUT0@', '@OUTPUT1@'])")
+        F(f'{p}_l1.c', _fn_c(f'{p}_l1', [f'{p}_h1.h'], expr=f'{P}_H1_VALUE - 1'))
+        L(f"{p}_l1 = static_library('{p}_l1', '{p}_l1.c', {p}_h1)")
+        L(f"{p}_d1 = declare_dependency(sources: {p}_h1, link_with: {p}_l1)")
+        F(f'{p}_x.c', _fn_c(f'{p}_x'))
+        L(f"{p}_xl = static_library('{p}_xl', '{p}_x.c', build_by_default: false)")
+        L(f"{p}_d2 = declare_dependency(dependencies: {p}_d1, sources: {p}_h2, objects: {p}_xl.extract_objects('{p}_x.c'))")
+        # (v1 hands on the header only: the generated source would be compiled into the library and the executable,
+        # and a unity build of the library puts both definitions into one archive member)
+        L(f"{p}_d3 = declare_dependency(dependencies: {p}_d2, sources: {p}_h3{'[0]' if v == 1 else ''})")
+        hs = [f'{p}_h1.h', f'{p}_h2.h', f'{p}_h3.h']
+        val = f'{P}_H1_VALUE + {P}_H2_VALUE + {P}_H3_VALUE - 3'
+        F(f'{p}_other.c', _fn_c(f'{p}_other', hs, expr=val))
+        if v == 0:      # the executable takes the outermost dependency
+            F(f'{p}_main.c', _main_c(hs, [f'{p}_l1', f'{p}_x', f'{p}_h3s_fn', f'{p}_other'],
+                                     f'{val} + {p}_l1() + {p}_x() + {p}_h3s_fn() + {p}_other()'))
+            L(f"{p}_exe = executable('{p}_exe', '{p}_main.c', '{p}_other.c', dependencies: {p}_d3)")
+        elif v == 1:    # a fourth level: a static library built with it, handed on by one more declare_dependency()
+            F(f'{p}_mid.c', _fn_c(f'{p}_mid', hs, expr=val))
+            L(f"{p}_mid = static_library('{p}_mid', '{p}_mid.c', dependencies: {p}_d3)")
+            L(f"{p}_d4 = declare_dependency(link_with: {p}_mid, dependencies: {p}_d3)")
+            F(f'{p}_main.c', _main_c(hs, [f'{p}_l1', f'{p}_x', f'{p}_other', f'{p}_mid'],
+                                     f'{val} + {p}_l1() + {p}_x() + {p}_other() + {p}_mid()'))
+            L(f"{p}_exe = executable('{p}_exe', '{p}_main.c', '{p}_other.c', dependencies: {p}_d4)")
+        else:           # a shared library built with it; the executable only takes sources + includes of it
+            F(f'{p}_mid.c', _fn_c(f'{p}_mid', hs, calls=[f'{p}_l1', f'{p}_x'], expr=val))
+            L(f"{p}_mid = shared_library('{p}_mid', '{p}_mid.c', dependencies: {p}_d3)")
+            F(f'{p}_main.c', _main_c(hs, [f'{p}_h3s_fn', f'{p}_other', f'{p}_mid'],
+                                     f'{val} + {p}_h3s_fn() + {p}_other() + {p}_mid()'))
+            L(f"{p}_exe = executable('{p}_exe', '{p}_main.c', '{p}_other.c', link_with: {p}_mid, "
+              f"dependencies: {p}_d3.partial_dependency(sources: true, includes: true))")
     else:
         raise ValueError('unknown block kind ' + kind)
 
@@ -436,6 +614,7 @@ def write(p: T.Dict[str, T.Any], srcdir: T.Union[str, os.PathLike]) -> None:
     w.line('', "ccprog = find_program('cc')")
     w.line('', "arprog = find_program('ar')")
     w.line('', "catprog = find_program('cat')")
+    w.line('', "shprog = find_program('sh')")
     w.file('', 'gen.sh', GEN_SH, 0o755)
     # subproject() calls must precede their use; subdir order = block order
     for b in p['blocks']:
@@ -464,11 +643,24 @@ def setup_args(p: T.Dict[str, T.Any]) -> T.List[str]:
     return [f"-Ddefault_library={o['default_library']}", f"-Dunity={unity}", f"-Dbuildtype={o['buildtype']}"] + extra
 
 
+def tests_in_scope(p: T.Dict[str, T.Any]) -> bool:
+    """Whether the statements behind `ninja test` / `ninja benchmark` belong to the graph of this project."""
+    return p.get('family') != 'overlay' and any(b['kind'] == 'tprog' for b in p['blocks'])
+
+
 def block_of(path: str) -> str:
     """Block kind owning a build path (from the b<N><kind> prefix of its basename or directories)."""
     import re
     m = re.search(r'b\d+(' + '|'.join(KINDS) + r')', path)
     return m.group(1) if m else '-'
+
+
+def role_of(path: str) -> str:
+    """For the block kinds whose statements differ only by the ROUTE through which they need something (prog, tprog):
+    the route named in the output's basename (b1prog_gdep.txt -> gdep), else ''."""
+    import re
+    m = re.search(r'b\d+t?prog_([a-z]+)', path.rsplit('/', 1)[-1])
+    return m.group(1) if m else ''
 
 
 def random_shape(rnd: random.Random, max_weight: int = 26, must: T.Optional[str] = None) -> T.Dict[str, T.Any]:
